@@ -3,6 +3,7 @@
   (About `negate` as repaired by the `fix:` commit for defect D1.)
 -/
 import Puan.Lemmas.Negate
+import Puan.Lemmas.Build
 namespace Puan.C05
 open Puan P
 
@@ -212,5 +213,60 @@ example :
   have hb : InB σ t := by simp [t, σ, InB, InBs]
   have := negate_compl σ t hs hb rfl
   omega
+
+/-! ### the negation is a proposition like any other: negated once more -/
+
+theorem negate_isLeaf (i b s v ks) (m : Meta) : (negate (.node i b s v ks m)).isLeaf = false := by
+  simp only [negate]
+  split
+  · split
+    · rfl
+    · split
+      · rfl
+      · split <;> rfl
+  · rfl
+
+theorem negate_gen (i b s v ks) (m : Meta) : (negate (.node i b s v ks m)).mt.gen = m.gen := by
+  simp only [negate]
+  split
+  · split
+    · rfl
+    · split
+      · rfl
+      · split <;> rfl
+  · rfl
+
+/-- **double negation is the model again** on every assignment inside the leaf bounds … -/
+theorem negate_negate_eval (σ : String → Int) (i b s v ks) (m : Meta) (hg : Good σ (.node i b s v ks m)) :
+    evalPt σ (negate (negate (.node i b s v ks m))) = evalPt σ (.node i b s v ks m) := by
+  have h1 := negate_compl σ (.node i b s v ks m) hg.1 hg.2 rfl
+  have hg' := good_negate σ _ hg
+  have h2 := negate_compl σ (negate (.node i b s v ks m)) hg'.1 hg'.2 (negate_isLeaf i b s v ks m)
+  rw [h2, h1]; omega
+
+/-- … and an explicitly given id survives any number of negations (two, here): the second negation still sees it as given -/
+theorem negate_negate_id (i b s v ks) (m : Meta) (h : m.gen = false) :
+    (negate (negate (.node i b s v ks m))).id = i := by
+  have hid := negate_keeps_id i b s v ks m h
+  have hgen := negate_gen i b s v ks m
+  generalize hn : negate (.node i b s v ks m) = n at hid hgen
+  have hl := negate_isLeaf i b s v ks m
+  rw [hn] at hl
+  cases n with
+  | leaf => simp [isLeaf] at hl
+  | node i' b' s' v' ks' m' =>
+      simp only [P.id] at hid; subst hid
+      simp only [P.mt] at hgen
+      exact negate_keeps_id _ b' s' v' ks' m' (by rw [hgen, h])
+
+/-- non-vacuity: the D1 witness negated twice is true again where it was true, and is still called "T" -/
+example :
+    let t : P := .node "T" ⟨0,1⟩ 1 2 [.node "B" ⟨0,1⟩ 1 1 [.leaf "a" ⟨0,1⟩, .leaf "b" ⟨0,1⟩] {}, .leaf "b" ⟨0,1⟩, .leaf "c" ⟨0,1⟩] {}
+    let σ : String → Int := fun _ => 1
+    evalPt σ (negate (negate t)) = 1 ∧ (negate (negate t)).id = "T" := by
+  intro t σ
+  have h1 : evalPt σ t = 1 := by decide
+  have hg : Good σ t := ⟨by simp [t, SignOk, SignOks], by simp [t, σ, InB, InBs]⟩
+  exact ⟨(negate_negate_eval σ _ _ _ _ _ _ hg).trans h1, negate_negate_id _ _ _ _ _ _ rfl⟩
 
 end Puan.C05
